@@ -88,7 +88,10 @@ def gen_case_dag(seed, tier, index=0, restart_bias=False):
         knobs['launch_delay'] = 0.0
     return {'comps': comps, 'stage_opts': stage_opts, 'plan': plan, 'hook': hook, 'hook_file': use_hook_file,
             'knobs': knobs, 'sched_seed': rr.getrandbits(48), 'pauses': common.gen_pauses(rr, 0.1),
-            'slow_wake_p': rr.choice([0.0, 0.3]), 'instability': common.gen_instability(rr, 0.12)}
+            'slow_wake_p': rr.choice([0.0, 0.3]), 'instability': common.gen_instability(rr, 0.12),
+            # the package's stage-completion hook (hooks/status.py IsStageComplete) answers True from this virtual time
+            # on: the controller then stops whatever is left of the stage
+            'complete_at': rr.choice([0.5, 3.0, 8.0, 20.0, 45.0]) if rr.random() < 0.08 else None}
 
 
 def gen_case_observer_race(seed, tier, index=0):
@@ -215,6 +218,10 @@ def gen_case_restart(seed, tier, index=0):
 
 
 def shrink_candidates(case):
+    if case.get('complete_at') is not None:
+        c = copy.deepcopy(case)
+        c['complete_at'] = None
+        yield c
     if case.get('instability'):
         c = copy.deepcopy(case)
         c['instability'] = []
@@ -611,6 +618,10 @@ def oracle_c02(nodes, ev, outcomes, states_end, states_settled, stop, viol, rec,
             model[n] = 'component_shutdown'
             continue
         reason = effective_exit(nd, hist.get(n))
+        if reason is None and n in ext and not hist.get(n):
+            # stopped by the controller before it ever ran (stage completion hook, stage being stopped)
+            model[n] = {'component_shutdown'}
+            continue
         if reason is None:
             # never executed although the rules let it run (or executed partially): only legitimate when it was
             # stopped from outside or when the undefined-at-launch observer branch applies
@@ -888,6 +899,17 @@ def run_case(case, schedule, opts):
                 R.start_operator(case['pauses'], slow_wake_p=case.get('slow_wake_p', 0.0))
             if case.get('instability'):
                 R.start_instability(case['instability'])
+            if case.get('complete_at') is not None:
+                t_hook0 = K.clock
+                t_done = float(case['complete_at'])
+
+                def completion_hook(stage_index, directory):
+                    done = (K.clock - t_hook0) >= t_done
+                    if done:
+                        REC.count('fault.completion_hook_true')
+                    return done
+
+                controller.completionCheck = completion_hook
             nodes = node_table(controller)
             try:
                 R.run_stages(exp, controller, REC, outcomes)
